@@ -16,6 +16,24 @@ Inductive skn :=
 with skl := SNil | SCons (k : skn) (r : skl)
 with alts := ANone | AAlt (b : skl) (r : alts).
 
+(* Jinja output expressions, as far as the classification looks into them *)
+Inductive jexpr :=
+| JStr (s : str)                       (* string literal *)
+| JNum                                 (* numeric literal *)
+| JName (x : str)                      (* variable *)
+| JCond (a b : jexpr)                  (* a if _ else b  (absent else: the empty string) *)
+| JOr (a b : jexpr)                    (* a or b / a and b: the value is one of the operands *)
+| JBoolean                             (* not / comparison / test *)
+| JCat (a b : jexpr)                   (* a ~ b, a + b *)
+| JRepeat (a b : jexpr)                (* a * b *)
+| JArith (a b : jexpr)                 (* - / // % ** and unary minus *)
+| JAttr (e : jexpr) (name : str)       (* e.name *)
+| JItemVersion (e : jexpr)             (* e.version[k] *)
+| JReplace (e : jexpr) (c : N) (r : str)   (* e.replace("c", "r") *)
+| JCount (e : jexpr)                   (* e.count(..) / index / find *)
+| JFilter (name : str) (e : jexpr)     (* e | name  (no arguments) *)
+| JOther.                              (* anything else *)
+
 Record site := {
   st_template : str;
   st_line : N;
@@ -23,5 +41,7 @@ Record site := {
   st_cls : N;     (* 0 template constant, 1 numeric, 2 DSDL identifier / type name, 3 ends in an escaping filter (e, escape,
                      forceescape, make_unique) applied to the WHOLE expression, 4 markup-producing filter (display_type),
                      8 DSDL documentation text not escaped as a whole, 9 not classified *)
-  st_safe_filter : bool   (* a `safe` filter occurs in the expression (directly or through a variable): autoescape is bypassed *)
+  st_safe_filter : bool;  (* a `safe` filter occurs in the expression (directly or through a variable): autoescape is bypassed *)
+  st_scope : str;         (* "file" or "file:macro": where the variables of the expression are bound *)
+  st_expr : jexpr
 }.
